@@ -85,6 +85,22 @@ theorem xor_ks_split (E : Bytes → Bytes) (bs : Nat) (ctr : Nat → Bytes) (inp
     rw [List.take_append_drop, ← ksRange_add, ← hlen2]
   rw [h1, xorBytes_append _ _ _ _ (by simp [ksRange_length]; omega)]
 
+theorem ceil_mul (bs k : Nat) (h : 0 < bs) : (k * bs + bs - 1) / bs = k := by
+  have h1 : k * bs + bs - 1 = bs * k + (bs - 1) := by rw [Nat.mul_comm]; omega
+  have h2 : bs - 1 < bs := by omega
+  rw [h1, Nat.mul_add_div h, Nat.div_eq_of_lt h2, Nat.add_zero]
+
+theorem ceil_add (bs k r : Nat) (h : 0 < bs) : (k * bs + r + bs - 1) / bs = k + (r + bs - 1) / bs := by
+  have h1 : k * bs + r + bs - 1 = bs * k + (r + bs - 1) := by rw [Nat.mul_comm]; omega
+  rw [h1, Nat.mul_add_div h]
+
+theorem ceil_le (bs B r : Nat) (h : 0 < bs) (hr : r < B * bs) : (r + bs - 1) / bs ≤ B := by
+  apply Nat.le_of_lt_succ
+  apply Nat.div_lt_of_lt_mul
+  have h1 : bs * B.succ = B * bs + bs := by rw [Nat.mul_succ, Nat.mul_comm]
+  rw [h1]
+  omega
+
 /-! ## the loop invariant -/
 
 /-- index of the first counter block of the next batch when `n` bytes have been consumed -/
@@ -97,7 +113,7 @@ structure CInv (E : Bytes → Bytes) (bs B : Nat) (lazy : Bool) (ctr : Nat → B
     base + (if lazy then st.pending else 0) = b0 + nextBase (B * bs) B n ∧ st.pending ≤ B
   bufA : n % (B * bs) = 0 → st.offset ≥ B * bs
   bufB : n % (B * bs) ≠ 0 → st.offset = n % (B * bs) ∧
-    st.ecounter = ksRange E bs (fun i => ctr (b0 + i)) ((n / (B * bs)) * (B * bs)) (B * bs)
+    st.ecounter = ksRange E bs (fun i => ctr (b0 + i)) ((n / (B * bs)) * (B * bs)) (B * bs) ∧ (lazy = true → st.pending = B)
 
 section
 variable (inc : Nat → Bytes → Bytes) (E : Bytes → Bytes) (bs B : Nat) (lazy : Bool) (ctr : Nat → Bytes)
@@ -198,13 +214,13 @@ theorem ctrLoop_spec (b0 : Nat) (fuel : Nat) : ∀ (st : CtrState) (input out : 
           have hne0 : ¬ (n + input.length) % (B * bs) = 0 := by rw [hr']; omega
           constructor
           · rw [hec, xorBytes_take_right input (ksRange E bs (fun i => ctr (b0 + i)) n (B * bs)), ksRange_take _ _ _ _ _ _ (by omega)]
-          · refine ⟨⟨base', hl1, ?_, hpend⟩, fun h => absurd h hne0, fun _ => ⟨hr'.symm, ?_⟩⟩
+          · refine ⟨⟨base', hl1, ?_, hpend⟩, fun h => absurd h hne0, fun _ => ⟨hr'.symm, ?_, fun hz => by simp [hz]⟩⟩
             · simp only [nextBase, hne0, if_false, hq']; exact hb1
             · show (if lazy then st.lanes.map (inc st.pending) else st.lanes).flatMap E = _
               rw [hec, hq', hn]
       · -- left-over keystream from the previous request
         have hr : ¬ n % (B * bs) = 0 := fun h0 => hoff (hbufA h0)
-        obtain ⟨hoffeq, hecnt⟩ := hbufB hr
+        obtain ⟨hoffeq, hecnt, hpB⟩ := hbufB hr
         have hrlt : n % (B * bs) < B * bs := Nat.mod_lt _ hW
         have hpos0 : (n / (B * bs)) * (B * bs) + n % (B * bs) = n := by rw [Nat.mul_comm]; exact hnmod
         simp only [ctrLoop, hne, Bool.false_eq_true, if_false, hoff]
@@ -227,7 +243,7 @@ theorem ctrLoop_spec (b0 : Nat) (fuel : Nat) : ∀ (st : CtrState) (input out : 
           · refine ⟨⟨base, hl, ?_, hp⟩, fun _ => by show st.offset + temp ≥ B * bs; omega, fun h => absurd h1 h⟩
             rw [hb]; simp [nextBase, hr, h1, h2]
           · have hne1 : ¬ (n + temp) % (B * bs) = 0 := by rw [h1]; omega
-            refine ⟨⟨base, hl, ?_, hp⟩, fun h => absurd h hne1, fun _ => ⟨by show st.offset + temp = _; rw [h1, hoffeq], by show st.ecounter = _; rw [h2]; exact hecnt⟩⟩
+            refine ⟨⟨base, hl, ?_, hp⟩, fun h => absurd h hne1, fun _ => ⟨by show st.offset + temp = _; rw [h1, hoffeq], by show st.ecounter = _; rw [h2]; exact hecnt, hpB⟩⟩
             rw [hb]; simp [nextBase, hr, hne1, h2]
         have := ih { st with offset := st.offset + temp } (input.drop temp)
           (out ++ xorBytes (input.take temp) (st.ecounter.drop st.offset)) (n + temp) (by simp; omega) hinv'
@@ -241,6 +257,84 @@ theorem ctrLoop_spec (b0 : Nat) (fuel : Nat) : ∀ (st : CtrState) (input out : 
           · simp
         · have : n + temp + (input.drop temp).length = n + input.length := by simp; omega
           rw [this] at h2; exact h2
+
+/-- one `encrypt` call -/
+theorem ctrEncrypt_spec (b0 n : Nat) (st : CtrState) (input : Bytes) (hinv : CInv E bs B lazy ctr b0 n st) :
+    (ctrLoop inc E bs B lazy (input.length + 1) st input []).2 = xorBytes input (ksRange E bs (fun i => ctr (b0 + i)) n input.length) ∧
+    CInv E bs B lazy ctr b0 (n + input.length) (ctrLoop inc E bs B lazy (input.length + 1) st input []).1 := by
+  have := ctrLoop_spec inc E bs B lazy ctr hbs hB hE hinc b0 (input.length + 1) st input [] n (by omega) hinv
+  simpa using this
+
+omit hE hinc in
+/-- keystream reset after a key or tweak change (`*_reset` of the vector back ends; `offset := bs`
+of the generic one, for which `B = 1`): whatever cipher `E'` is in place afterwards, the stream
+restarts at the first counter block that has not been used yet -/
+theorem reset_inv (E' : Bytes → Bytes) (b0 n : Nat) (st : CtrState) (hgen : lazy = false → B = 1)
+    (hinv : CInv E bs B lazy ctr b0 n st) :
+    CInv E' bs B lazy ctr (b0 + (n + bs - 1) / bs) 0 (st.reset bs B lazy) := by
+  have hW : 0 < B * bs := Nat.mul_pos hB hbs
+  obtain ⟨⟨base, hl, hb, hp⟩, hbufA, hbufB⟩ := hinv
+  have h00 : (0 : Nat) % (B * bs) = 0 := Nat.zero_mod _
+  -- n = (q*B)*bs + r
+  have hdecomp : n = (n / (B * bs)) * B * bs + n % (B * bs) := by
+    have h1 := Nat.div_add_mod n (B * bs)
+    have h2 : B * bs * (n / (B * bs)) = (n / (B * bs)) * B * bs := by
+      rw [Nat.mul_comm, Nat.mul_assoc]
+    omega
+  generalize hq : n / (B * bs) = q at *
+  generalize hrr : n % (B * bs) = r at *
+  have hrlt : r < B * bs := by rw [← hrr]; exact Nat.mod_lt _ hW
+  by_cases hr : r = 0
+  · -- at a batch boundary: nothing buffered
+    have hoff := hbufA hr
+    have hceil : (n + bs - 1) / bs = q * B := by
+      rw [hdecomp, hr, Nat.add_zero]
+      exact ceil_mul bs (q * B) hbs
+    have hst : (st.reset bs B lazy).lanes = st.lanes ∧ (if lazy then (st.reset bs B lazy).pending else 0) = (if lazy then st.pending else 0) ∧
+        (st.reset bs B lazy).offset ≥ B * bs ∧ (st.reset bs B lazy).pending ≤ B := by
+      cases lazy
+      · simp [CtrState.reset, hp]
+      · have : ¬ st.offset < B * bs := by omega
+        simp [CtrState.reset, this, hp]; exact hoff
+    obtain ⟨e1, e2, e3, e4⟩ := hst
+    refine ⟨⟨base, by rw [e1]; exact hl, ?_, e4⟩, fun _ => e3, fun h => absurd h00 h⟩
+    rw [e2, hb]
+    simp [nextBase, hr, hrr, hq, hceil]
+  · -- part of a batch was consumed
+    obtain ⟨hoffeq, _, hpB⟩ := hbufB hr
+    have hceil : (n + bs - 1) / bs = q * B + (r + bs - 1) / bs := by
+      rw [hdecomp]; exact ceil_add bs (q * B) r hbs
+    have hu : (r + bs - 1) / bs ≤ B := ceil_le bs B r hbs hrlt
+    cases hlz : lazy
+    · -- generic back end (B = 1): the counter was incremented right after the block was generated
+      have hB1 : B = 1 := hgen hlz
+      subst hB1
+      rw [hlz] at hb
+      simp only [Bool.false_eq_true, if_false, Nat.add_zero] at hb
+      have hu1 : (r + bs - 1) / bs = 1 := by
+        have h1 : r + bs - 1 = bs * 1 + (r - 1) := by omega
+        have h2 : r - 1 < bs := by omega
+        rw [h1, Nat.mul_add_div hbs, Nat.div_eq_of_lt h2]
+      refine ⟨⟨base, hl, ?_, hp⟩, fun _ => by simp [CtrState.reset], fun h => absurd h00 h⟩
+      simp only [Bool.false_eq_true, if_false, Nat.add_zero, hb, nextBase, hrr, hq, hr, h00, if_true, hceil, hu1]
+      simp
+    · -- vector back ends: remember how many blocks of the batch were used
+      rw [hlz] at hb
+      simp only [if_true] at hb
+      have hpend := hpB hlz
+      have hlt : st.offset < B * bs := by omega
+      have hreset : st.reset bs B true = { st with pending := (r + bs - 1) / bs, offset := B * bs } := by
+        unfold CtrState.reset
+        simp [hoffeq]
+        intro h; omega
+      rw [hreset]
+      refine ⟨⟨base, hl, ?_, hu⟩, fun _ => Nat.le_refl _, fun h => absurd h00 h⟩
+      show base + (r + bs - 1) / bs = b0 + (n + bs - 1) / bs + nextBase (B * bs) B 0
+      rw [hpend] at hb
+      simp only [nextBase, hrr, hq, hr, if_false] at hb
+      rw [Nat.add_mul] at hb
+      simp only [nextBase, h00, if_true, Nat.zero_div, Nat.zero_mul, Nat.add_zero, hceil]
+      omega
 
 end
 end SkinnyVerif.Lemmas
